@@ -140,8 +140,8 @@ def impl(case):
                 return {"coef": [float(v) for v in t.coef_], "pred": [float(v) for v in t.predict((np.array(qe), np.array(qn)))]}
             which, es, ns, shape2d, data, params = a
             g, ncomp = build(which, params)
-            coords = (C.mkarr(es, shape2d, case["op"]), C.mkarr(ns, shape2d, case["op"]))
-            d = tuple(C.mkarr(x, shape2d, case["op"]) for x in data[:ncomp])
+            coords = (C.mkarr(es, shape2d, "es:" + case["op"]), C.mkarr(ns, shape2d, "ns:" + case["op"]))
+            d = tuple(C.mkarr(x, shape2d, f"d{i}:" + case["op"]) for i, x in enumerate(data[:ncomp]))
             if all(float(v).is_integer() for x in data[:ncomp] for v in x):
                 d = tuple(np.asarray(x).astype("int64") for x in d)      # "all finite data values": also integer-typed ones
             g.fit(coords, d[0] if ncomp == 1 else d)
